@@ -438,4 +438,116 @@ theorem transformSeq_onlyKV (ign : Bool) : ∀ (l : List Val) (p : TPath), OnlyK
     | panic x => intro s he; cases he; exact h1 _ ht
 end
 
+/-! ## `validation.Validate` (Model/Validate.lean): its only panic sites are the three unchecked assertions that
+`Props/C01Sites.lean` marks `schema` (each with its `kindsAt` instance) -/
+
+def validateSites : List String :=
+  ["validation.init.checkFileObject", "validation.checkPath", "validation.checkDeviceRequest"]
+
+theorem run_panic_site (c : Validate.Checker) (v : Val) (s : String) (h : Validate.run c v = .panic s) :
+    s ∈ validateSites := by
+  cases c with
+  | volume =>
+    simp only [Validate.run] at h
+    cases v <;> simp [Validate.checkVolume, Validate.checkExternal] at h
+    rename_i kvs
+    repeat' split at h
+    all_goals cases h
+  | fileObject keys =>
+    simp only [Validate.run] at h
+    cases v <;> simp [Validate.checkFileObject] at h
+    all_goals first
+      | (subst h; simp [validateSites])
+      | (repeat' split at h
+         all_goals cases h)
+  | path =>
+    simp only [Validate.run] at h
+    cases v <;> simp [Validate.checkPath] at h
+    all_goals first
+      | (subst h; simp [validateSites])
+      | (repeat' split at h
+         all_goals cases h)
+  | deviceRequest =>
+    simp only [Validate.run] at h
+    cases v <;> simp [Validate.checkDeviceRequest] at h
+    all_goals first
+      | (subst h; simp [validateSites])
+      | (repeat' split at h
+         all_goals cases h)
+
+theorem runL_panic_site (c : Validate.Checker) (v : Val) (s : String) (h : Validate.VOut.panic s ∈ Validate.runL c v) :
+    s ∈ validateSites := by
+  unfold Validate.runL at h
+  split at h
+  · cases h
+  · rename_i o _
+    simp only [List.mem_singleton] at h
+    exact run_panic_site c v s h.symm
+
+mutual
+theorem failuresAt_panic_site : ∀ (v : Val) (p : TPath) (s : String), Validate.VOut.panic s ∈ Validate.failuresAt p v → s ∈ validateSites
+  | .map kvs, p, s, h => by
+    unfold Validate.failuresAt at h
+    split at h
+    · exact runL_panic_site _ _ s h
+    · exact failuresKVs_panic_site kvs p s h
+  | .seq xs, p, s, h => by
+    unfold Validate.failuresAt at h
+    split at h
+    · exact runL_panic_site _ _ s h
+    · exact failuresSeq_panic_site xs p s h
+  | .null, p, s, h => by
+    unfold Validate.failuresAt at h
+    split at h
+    · exact runL_panic_site _ _ s h
+    · cases h
+  | .bool _, p, s, h => by
+    unfold Validate.failuresAt at h
+    split at h
+    · exact runL_panic_site _ _ s h
+    · cases h
+  | .int _, p, s, h => by
+    unfold Validate.failuresAt at h
+    split at h
+    · exact runL_panic_site _ _ s h
+    · cases h
+  | .float _, p, s, h => by
+    unfold Validate.failuresAt at h
+    split at h
+    · exact runL_panic_site _ _ s h
+    · cases h
+  | .str _, p, s, h => by
+    unfold Validate.failuresAt at h
+    split at h
+    · exact runL_panic_site _ _ s h
+    · cases h
+theorem failuresKVs_panic_site : ∀ (kvs : List (String × Val)) (p : TPath) (s : String),
+    Validate.VOut.panic s ∈ Validate.failuresKVs p kvs → s ∈ validateSites
+  | [], p, s, h => by simp [Validate.failuresKVs] at h
+  | (k, v) :: r, p, s, h => by
+    unfold Validate.failuresKVs at h
+    rcases List.mem_append.mp h with h | h
+    · exact failuresAt_panic_site v _ s h
+    · exact failuresKVs_panic_site r p s h
+theorem failuresSeq_panic_site : ∀ (xs : List Val) (p : TPath) (s : String),
+    Validate.VOut.panic s ∈ Validate.failuresSeq p xs → s ∈ validateSites
+  | [], p, s, h => by simp [Validate.failuresSeq] at h
+  | v :: r, p, s, h => by
+    unfold Validate.failuresSeq at h
+    rcases List.mem_append.mp h with h | h
+    · exact failuresAt_panic_site v _ s h
+    · exact failuresSeq_panic_site r p s h
+end
+
+theorem validate_panic_site (t : Val) (s : String) (h : Validate.validate t = .panic s) : s ∈ validateSites := by
+  unfold Validate.validate at h
+  split at h
+  · cases h
+  · rename_i o rest hf
+    subst h
+    apply failuresAt_panic_site t TPath.root s
+    unfold Validate.failures at hf
+    rw [hf]
+    exact List.mem_cons_self ..
+
 end CV.C01.Pipeline
